@@ -9,7 +9,7 @@ def run(run):
                 'implementation\'s own extents: iteration order, index, dindex, infimum/supremum, atoms, order inside neighbor tuples')
     d = run.driver
     import concepts
-    prev = None
+    pool = {}       # number of objects -> (table, context, stored form) of the latest context with that many objects
     turn = 0
     for tab, pc0 in lat.contexts(run, exh_quick=10, rand_quick=500, wide_quick=40, exh_thorough=14, nmax=10, mmax=9):
         if min(pc0.n, pc0.m) > 12:
@@ -20,11 +20,14 @@ def run(run):
             pc0.ctx.lattice
             dd0 = pc0.ctx.todict()
         check_one(run, d, tab, pc0, None, 0, concepts)
-        if prev is not None:
-            ptab, ppc, pdd = prev
+        # an earlier context with ANOTHER number of objects (the same bit patterns mean other object sets there), else any other
+        others = [k for k in pool if k != pc0.n]
+        if others:
+            k = min(others, key=lambda k: (abs(k - pc0.n), k))
+            ptab, ppc, pdd = pool[k]
             turn += 1
-            check_one(run, d, ptab, ppc, pdd, 1 + turn % 4, concepts)
-        prev = (tab, pc0, dd0)
+            check_one(run, d, ptab, ppc, pdd, 1 + turn % 5, concepts)
+        pool[pc0.n] = (tab, pc0, dd0)
 
 
 def check_one(run, d, tab, pc, dd, variant, concepts):
@@ -57,6 +60,11 @@ def check_one(run, d, tab, pc, dd, variant, concepts):
                         scratch['lattice'][k] = tuple(shuf(x) for x in scratch['lattice'][k])
                     L = concepts.Context.fromdict(pc.ctx.todict()).lattice
                     run.count('lattice loaded from a later todict() after the caller scrambled an earlier one')
+                elif variant == 5 and len(dd['lattice']) <= 150:
+                    import copy
+                    import pickle
+                    L = pickle.loads(pickle.dumps(pc.ctx.lattice)) if run.rng.random() < .5 else copy.deepcopy(pc.ctx.lattice)
+                    run.count('lattice from a pickle / deepcopy round trip')
                 else:
                     L = concepts.Context.fromdict(dd).lattice
                     run.count('lattice loaded from dict')
